@@ -23,9 +23,11 @@ import (
 var concVerbose bool
 
 type concScn struct {
-	ring  []uint64
-	ops   []string
-	maint bool
+	ring      []uint64
+	ops       []string
+	maint     bool
+	fine      bool // stabilize is not atomic in this scenario
+	maintNode uint64
 }
 
 func parseConc(name string) *concScn {
@@ -34,6 +36,11 @@ func parseConc(name string) *concScn {
 		return nil
 	}
 	s := &concScn{maint: p[2] == "maint=1"}
+	if strings.HasPrefix(p[2], "maint=fine:") { // stabilize (statement-level interleaving) on one node only
+		s.maint = true
+		s.fine = true
+		fmt.Sscan(strings.TrimPrefix(p[2], "maint=fine:"), &s.maintNode)
+	}
 	for _, f := range strings.Split(strings.TrimPrefix(p[0], "ring="), ",") {
 		var v uint64
 		fmt.Sscan(f, &v)
@@ -145,6 +152,10 @@ func runConc(s *concScn, prefix []int, kv bool, extra func(w *chordlib.World) []
 		}
 	}
 	var newNodes []*rchord.LocalNode
+	if s.fine {
+		vsched.AtomicLevel = 0
+		defer func() { vsched.AtomicLevel = 1 }()
+	}
 	res := vsched.Run(vsched.Options{Prefix: prefix, MaxSteps: 3000000}, func() {
 		for _, op := range s.ops {
 			op := op
@@ -197,6 +208,9 @@ func runConc(s *concScn, prefix []int, kv bool, extra func(w *chordlib.World) []
 		}
 		if s.maint {
 			nodes := w.Ring.Sorted()
+			if s.maintNode != 0 {
+				nodes = []*rchord.LocalNode{w.Ring.Get(s.maintNode)}
+			}
 			vsched.GoNamed("maint", false, func() {
 				for _, n := range nodes {
 					n.VerifCheckPredecessor()
@@ -359,6 +373,23 @@ func concScenarios(thorough bool) []string {
 			mk([]uint64{A, B, C}, fmt.Sprintf("leave:%d;leave:%d;join:%d:%d", A, B, j1, C), 0),
 			mk([]uint64{A, B, C}, fmt.Sprintf("join:%d:%d;join:%d:%d;leave:%d", j1, A, j2, C, C), 0),
 		)
+	}
+	return out
+}
+
+// fineStabilizeScenarios: a join or leave whose advisory makes a neighbour stabilize while
+// that neighbour's own periodic stabilize round is running, stabilize interleaved at
+// statement level.
+func fineStabilizeScenarios(thorough bool) []string {
+	const A, B, C = uint64(1) << 44, uint64(1) << 45, uint64(3) << 44
+	j := A + (B-A)/2
+	out := []string{
+		fmt.Sprintf("ring=%s|join:%d:%d|maint=fine:%d", joinU([]uint64{A, B}), j, A, A),
+		fmt.Sprintf("ring=%s|leave:%d|maint=fine:%d", joinU([]uint64{A, B, C}), B, A),
+	}
+	if thorough {
+		out = append(out, fmt.Sprintf("ring=%s|join:%d:%d|maint=fine:%d", joinU([]uint64{A, B, C}), j, C, A),
+			fmt.Sprintf("ring=%s|leave:%d|maint=fine:%d", joinU([]uint64{A, B}), B, A))
 	}
 	return out
 }
